@@ -15,6 +15,19 @@ GRAPH_TIE = ("The model (lean/PjVerif/Model/Graph*.lean) mirrors task.py/wbs.py 
              "property's projection, while the Lean monitors (the Bool versions of the very predicates the theorems are about) judge the "
              "implementation's observed states. A mismatch or a broken proof triggers a failing-input search.")
 
+TASK_TIE = ("TRANSLATED tie of the relation setters: tools/extract_task.py turns, on every run, the four relation setters of Task (parent, "
+            "children, predecessors, successors) and the 21 helpers they call (_to_list, _find_root, _collect_subtree, _unique_objects, "
+            "_has_id_intersection, _linked_with_any, _attach, _detach, all_parents/all_children/all_predecessors/all_successors with their "
+            "generators, the None checks, _ChildrenList.append) into a PyLite program (Extracted/TaskSrc.lean); *_source_set_parent / "
+            "_set_children / _set_predecessors / _set_successors (Lemmas/TaskSrc*.lean) prove that running that program - calls resolved by "
+            "running the translated callee, fuel = recursion limit - on the encoding of a graph state gives the encoding of the model's new state "
+            "when the model accepts and the model's error class when it rejects, for every state (the parent setter with None on a WBS member "
+            "needs the C01 fact that a children list names a task once), unless the model ends in RecursionError. 36 semantic edits tried: all "
+            "break a lemma, a kernel-evaluated example or leave the translatable fragment (= broken tie). Not translated: the list facades' own "
+            "methods (move, sort, reorder, insert, remove, operators), WBS.remove/remove_all, Task.__init__ - these stay hand-modelled and tied "
+            "by the stream; for a rejected call the interpreter's result carries the error class only (that the store is untouched is the "
+            "stream's business). ")
+
 LOOPS_TIE = ("TRANSLATED tie of the inner loops: tools/extract_schedule.py turns, on every run, _ResourceUsage.reserved/reserve/__get_key and both "
              "schedulers' __get_resource_nearest_available_date / __shift_by_resource_usage_and_calendar into PyLite terms; the *_source_* theorems "
              "prove that running the translated source on a ledger is the model's function (nearestFwd/shiftFwd/nearestBwd/shiftBwd, reserved) and "
@@ -50,8 +63,8 @@ CLAIMED = {
               "operators incl. the list-level ones, roots assignment, WBS.remove/remove_all - maps a well-formed graph (hierarchy stored "
               "consistently on both ends, each child listed once, forest, symmetric acyclic links, no link between ancestor and "
               "descendant) to a well-formed graph whether the call returns or raises; hence every intermediate state of every history "
-              "is well-formed. " + GRAPH_TIE),
-        design='5 (C01)', technique='Lean 4 invariant proof by induction over operation histories + differential correspondence'),
+              "is well-formed. " + GRAPH_TIE + ' ' + TASK_TIE),
+        design='5 (C01)', technique='Lean 4 invariant proof by induction over operation histories + differential correspondence + translated tie of the setters (PyLite)'),
     'C02': dict(
         text=("PARTIAL. Theorem C02_partial (all sizes, calendars, clocks): when no task that has children carries a dependency link, a leaf "
               "with unfixed start never starts and never has work reserved on a day earlier than the end day of any own or inherited "
@@ -170,7 +183,7 @@ CLAIMED = {
               "a stable ordered permutation, reversed on request, nothing else changes), C16_move + C16_moveOne (immediately before/after the "
               "anchor, the others keep their relative order), C16_frame_links. The closed forms themselves are what the statement says in "
               "prose; they are evaluated (driver: effectB) on the implementation's own pre/post states in the correspondence stream, together "
-              "with mustAcceptB (calls the statement lists as legal must return). " + GRAPH_TIE),
+              "with mustAcceptB (calls the statement lists as legal must return). " + GRAPH_TIE + ' ' + TASK_TIE),
         design='5 (C16), 12.5', technique='Lean 4 proof (closed-form effect = model step, incl. merge-sort stability and owner propagation) + differential correspondence with an effect monitor'),
     'C19': dict(
         text=("'Text cannot add, drop or alter entries' is stated as: a plain lexical reader of the emitted source returns exactly the entries of "
@@ -210,14 +223,14 @@ CLAIMED = {
               "C05_reject_is_runtime - every rejection on a reachable state is RuntimeError (RecursionError cannot occur: fuel-sufficiency "
               "lemmas; the only other exception class comes from reorder with unknown/repeated ids); C05_clash_rejected; C05_lookup_some/none - "
               "wbs[id] returns the one member with that id and raises RuntimeError exactly when there is none; C05_tasks_members/preorder - "
-              "WBS.tasks lists every member exactly once, each directly followed by its descendants, siblings in list order. " + GRAPH_TIE),
+              "WBS.tasks lists every member exactly once, each directly followed by its descendants, siblings in list order. " + GRAPH_TIE + ' ' + TASK_TIE),
         design='5 (C05)', technique='Lean 4 invariant proof (joint invariant, induction over histories) + differential correspondence'),
     'C11': dict(
         text=("Theorems: C11_step/C11_run - the owner back-pointer stays truthful (inherited along the parent edge, a WBS root owns itself, "
               "a parentless ordinary task has none) under every operation and history; C11_member_iff - a task reports WBS w exactly when it "
               "is in w.tasks; C11_none_iff; C11_released - tasks left out of an accepted children/roots assignment (hence remove, remove_all, "
               "WBS.remove) report no owner with their whole subtree; C11_reattach - a released subtree whose ids do not clash is accepted by "
-              "another WBS. " + GRAPH_TIE),
+              "another WBS. " + GRAPH_TIE + ' ' + TASK_TIE),
         design='5 (C11)', technique='Lean 4 invariant proof + differential correspondence'),
     'C15': dict(
         text=("PARTIAL. Theorem C15_partial: on every reachable state every mutator except the three element-wise list-level operations "
@@ -225,7 +238,7 @@ CLAIMED = {
               "its core is C15_children_validated_no_inner_raise (once the children setter's up-front validation passed, none of the inner "
               "parent-setter calls can raise - needs the joint invariant and fuel sufficiency). The full statement is false on the code for the "
               "three excluded operations: C15_full_fails is a kernel-checked counterexample, replayed on the implementation on every run and "
-              "listed as known findings KF-G12a/b/c; any other violation is reported. " + GRAPH_TIE),
+              "listed as known findings KF-G12a/b/c; any other violation is reported. " + GRAPH_TIE + ' ' + TASK_TIE),
         design='5 (C15)', technique='Lean 4 proof (atomicity lemma) + differential correspondence; known findings for element-wise list ops'),
     'C18': dict(
         text=("Here the model is TRANSLATED, not hand-written: tools/extract.py parses the if/elif keyword-suffix chain of "
